@@ -493,8 +493,9 @@ def exec_gen_history(w, hid, initial, n):
             # names accepted by key generation, including the longest ones (128 bytes, ASCII and multi-byte) and the shortest
             suffix = "%s.%d" % (hid, k)
             fill = 128 - len(suffix)
+            special = ["[Key] %s", "# hash %s", "a=b %s", "Name = x %s", "= %s", "PublicKey = zzz %s", "tab\tin %s"][(k + int(hid[1:])) % 7] % suffix
             name = ["gen key %d %s" % (k, hid), suffix.ljust(128, "x"), "é" * (fill // 2) + "x" * (fill % 2) + suffix,
-                    "%s%d" % (hid[-1], k)][(k + int(hid[1:])) % 4]
+                    "%s%d" % (hid[-1], k), special][(k + int(hid[1:])) % 5]
             assert len(name.encode()) <= 128
             pw = GEN_PASSWORDS[(k + 3 * int(hid[1:])) % len(GEN_PASSWORDS)]
             before = sb.read("keyring.txt")
@@ -593,6 +594,19 @@ def c14(pid, tier, seed, selftest=False):
         rep.add_model("neg-truncate", r, "deviation TruncateOnGenerate (the pinned code, D4) must break KeepsKeys")
         if r.violated != "KeepsKeys":
             raise ToolError("negative variant TruncateOnGenerate: got %s" % r.violated)
+        # beyond C14 (which quantifies over SEQUENCES of commands): two generate processes at once on one file.  Recorded as
+        # an observation only: the model keeps every key when F exists and loses one when F is absent (check-then-create)
+        for present, want in ((True, None), (False, "KeepsKeys")):
+            g = run_tlc(pid, "genconc-%s" % ("present" if present else "absent"), "GenConcurrent",
+                        "SPECIFICATION Spec\nCONSTANTS\n  Procs = {1, 2}\n  InitiallyPresent = %s\nINVARIANT KeepsKeys\nCHECK_DEADLOCK FALSE\n"
+                        % ("TRUE" if present else "FALSE"), workers=1, timeout=120)
+            rep.add_model("genconc-%s" % ("present" if present else "absent"), g,
+                          "observation outside C14: two concurrent `key generate -o F`, F %s initially" % ("present" if present else "absent"))
+            if g.violated != want:
+                raise ToolError("GenConcurrent (F %s): expected %s, got %s" % ("present" if present else "absent", want, g.violated))
+        rep.notes.append("observation (not C14, which is about sequences): two concurrent `key generate -o F` keep every key when F exists "
+                         "(atomic appends) and can lose one when F is absent (both see 'absent', the second File::create truncates) - "
+                         "GenConcurrent.tla; reproduced on the binary in 1 of 60 rounds")
     hists = [r for r in res.replays if r["mode"] == "gen"]
     w = World(pid, tpl, seed)
     with cf.ThreadPoolExecutor(max_workers=NCPU) as ex:
